@@ -550,48 +550,65 @@ def line_accumulator(rep, f, g, roles, line_of, last_swap_line):
 
 
 def ellipse(rep, byname):
-    rep.rule("K5 ellipse draw_curve: four (+-x,+-y) writes, each dominated by validity[i] && validity[j]; validity[i] set only under the bounds test of co_ords[i]")
-    f = (byname.get("midpoint_ellipse_rasterizer::draw_curve") or [None])[0]
-    if f is None:
+    rep.rule("K5 ellipse draw_curve: four (+-x,+-y) writes, each dominated by validity[i] && validity[j]; validity[i] set only under the bounds test of co_ords[i] "
+             "(the coordinate array, the flag array and the centre copy are found by their roles on the canonical form, not by name)")
+    f0 = (byname.get("midpoint_ellipse_rasterizer::draw_curve") or [None])[0]
+    if f0 is None:
         rep.fail_analysis("draw_curve not instantiated")
         return
-    vn = f["params"][0]["name"]
-    writes = []
-    for x, p in R.find(f["body"], lambda x: x.get("k") in ("Assign", "Call") and x.get("op") == "=" and R.key(x.get("l") or x["args"][0]).startswith(vn + "(")):
+    f = R.canonize(f0)          # $0 view, $1 pixel, $2 trajectory; @0 the trajectory point
+    # roles: C the coordinate array (centre +- point per axis), Z the working copy of the centre, V the validity flags
+    C_ = Z_ = None
+    co_key = None
+    for x, p in R.find(f["body"], lambda x: x.get("k") == "Decl"):
+        for dd in x["decls"]:
+            if dd.get("init") is None:
+                continue
+            k = R.key(dd["init"])
+            m = re.search(r"\{\((%\d+)\[0\] \+ @0\[0\]\),\(\1\[0\] - @0\[0\]\),\(\1\[1\] \+ @0\[1\]\),\(\1\[1\] - @0\[1\]\)\}", k)
+            if m:
+                C_, Z_, co_key = dd["name"], m.group(1), k
+    rep.count("obligations:K5")
+    c_writes = [k for k, _, _ in R.effects(f["body"]) if C_ and re.match(r"\((\+\+|--)?%s[\[. ]" % re.escape(C_), k)]
+    if C_ is None or c_writes:
+        rep.violation("K5-ellipse", "K5:ellipse:co_ords", W + "ellipse.hpp", {"problem": "no array initialised once with (centre[0] +- point[0], centre[1] +- point[1]) found",
+                      "decls": [R.key(dd["init"])[:120] for x, _ in R.find(f["body"], lambda x: x.get("k") == "Decl") for dd in x["decls"] if dd.get("init") is not None][:8]})
+        return
+    rep.ok("K5-ellipse", "co_ords = center +- point per axis", co_key[-80:])
+    writes, vnames = [], set()
+    for x, p in R.find(f["body"], lambda x: x.get("k") in ("Assign", "Call") and x.get("op") == "=" and R.key(x.get("l") or x["args"][0]).startswith("$0(")):
         tgt = R.key(x.get("l") or x["args"][0])
-        m = re.fullmatch(re.escape(vn) + r"\(co_ords\[(\d)\],co_ords\[(\d)\]\)", tgt)
+        m = re.fullmatch(r"\$0\(%s\[(\d)\],%s\[(\d)\]\)" % (re.escape(C_), re.escape(C_)), tgt)
         gs = R.guards(p)
-        flags = sorted(int(mm.group(1)) for op, l, r in gs for mm in [re.fullmatch(r"validity\[(\d)\]", l)] if mm and op == "!=" and r == "0")
-        writes.append((tgt, (int(m.group(1)), int(m.group(2))) if m else None, flags))
+        fl = [(mm.group(1), int(mm.group(2))) for op, l, r in gs for mm in [re.fullmatch(r"(%\d+)\[(\d)\]", l)] if mm and op == "!=" and r == "0"]
+        vnames |= {n for n, _ in fl}
+        writes.append((tgt, (int(m.group(1)), int(m.group(2))) if m else None, sorted(i for _, i in fl), R.key(x.get("r") or x["args"][1])))
     rep.count("obligations:K5")
     combos = sorted(w[1] for w in writes if w[1])
-    if combos == [(0, 2), (0, 3), (1, 2), (1, 3)] and all(w[1] and sorted(w[1]) == w[2] for w in writes):
+    if combos == [(0, 2), (0, 3), (1, 2), (1, 3)] and all(w[1] and sorted(w[1]) == w[2] and w[3] == "$1" for w in writes) and len(vnames) == 1:
         rep.ok("K5-ellipse", "four guarded writes", [w[0] for w in writes])
     else:
-        rep.violation("K5-ellipse", "K5:ellipse:writes", W + "ellipse.hpp", {"writes": [(w[0], w[2]) for w in writes]})
+        rep.violation("K5-ellipse", "K5:ellipse:writes", W + "ellipse.hpp", {"writes": [(w[0], w[2], w[3]) for w in writes]})
+        return
+    V_ = vnames.pop()
     # validity flags
     for i, dim in ((0, "width"), (1, "width"), (2, "height"), (3, "height")):
         sets = []
-        for x, p in R.find(f["body"], lambda x: x.get("k") == "Assign" and R.key(x["l"]) == "validity[%d]" % i):
+        for x, p in R.find(f["body"], lambda x: x.get("k") == "Assign" and R.key(x["l"]) == "%s[%d]" % (V_, i)):
             gs = R.guards(p)
             sets.append((R.key(x["r"]), gs))
         rep.count("obligations:K5")
-        ok = len(sets) == 1 and sets[0][0] in ("true", "True", "1") and R.has_atom(sets[0][1], "<", "co_ords[%d]" % i, "%s.%s()" % (vn, dim))
+        ok = len(sets) == 1 and sets[0][0] in ("true", "True", "1") and R.has_atom(sets[0][1], "<", "%s[%d]" % (C_, i), "$0.%s()" % dim)
         if i in (1, 3):
-            ok = ok and R.has_atom(sets[0][1], ">=", "co_ords[%d]" % i, "0") if sets else False
+            ok = ok and R.has_atom(sets[0][1], ">=", "%s[%d]" % (C_, i), "0") if sets else False
         if ok:
             rep.ok("K5-ellipse", "validity[%d] set only under the %s bounds test" % (i, dim), sets[0][0])
         else:
             rep.violation("K5-ellipse", "K5:ellipse:validity[%d]" % i, W + "ellipse.hpp", {"assignments": [(s[0], s[1][-4:]) for s in sets]})
-    # coordinate definitions
+    # the flags start out false
     rep.count("obligations:K5")
-    co = None
-    for x, p in R.find(f["body"], lambda x: x.get("k") == "Decl"):
-        for dd in x["decls"]:
-            if dd.get("name") == "co_ords":
-                co = R.key(dd.get("init"))
-    want = "{(center2[0] + pnt[0]),(center2[0] - pnt[0]),(center2[1] + pnt[1]),(center2[1] - pnt[1])}"
-    if co is not None and want in co:
-        rep.ok("K5-ellipse", "co_ords = center +- point per axis", co[-len(want):])
+    vinit = [R.key(dd["init"]) if dd.get("init") is not None else None for x, _ in R.find(f["body"], lambda x: x.get("k") == "Decl") for dd in x["decls"] if dd.get("name") == V_]
+    if vinit and vinit[0] is not None and re.fullmatch(r"[\w\[\] ]*\{((false|False|0)(,(false|False|0))*)?\}", vinit[0]):
+        rep.ok("K5-ellipse", "validity flags value-initialised to false for every point", vinit[0])
     else:
-        rep.violation("K5-ellipse", "K5:ellipse:co_ords", W + "ellipse.hpp", {"co_ords": co, "expected_suffix": want})
+        rep.violation("K5-ellipse", "K5:ellipse:validity:init", W + "ellipse.hpp", {"initialiser": vinit})
